@@ -612,6 +612,7 @@ func init() {
 			"Not decided: that the kernels compute Op (rules K1/K2 of C06/C11/C12 do), that iterators deliver matching coordinates (C05), the hand-written operations' value semantics. Round 11: (RS) raw reshape typestate; (LP) a product's destination comes from handleReuse or is created by the method; (HS) only comparisons and prepReduce waive the destination's element type check; (AD).",
 		Assume: []string{"the summaries of E-level dispatch (destination = first non-scalar operand; Incr adds; Recv stores) and of storage.Copy/CopyIter/Fill, which rules K1arms/K2 check against the kernels", "sparse operands (swap) are outside the dense properties"},
 		Run: func(rc *rules.RC) {
+			rules.SP(rc, "C07", 1)
 			rules.HS(rc)
 			rules.RS(rc)
 			rules.LP(rc)
